@@ -457,6 +457,72 @@ func judgeAPI(m *Model, st *Stats) []pbt.Violation {
 			if !m.noDisruption(tau.Add(-time.Second), tau) {
 				continue
 			}
+			// mutedBy: the names the time-interval stages recorded at the group's last flush
+			if m.sc.Opts.StartDelay == 0 && len(m.Restarts) == 0 && len(m.Reloads) == 0 {
+				for _, g := range smp.Groups {
+					if len(g.Alerts) == 0 {
+						continue
+					}
+					ls := m.Alerts.Labels[g.Alerts[0].Key]
+					for _, rt := range cfg.Match(ls) {
+						if rt.Receiver != g.Receiver || ref.LabelKey(rt.GroupLabels(ls)) != ref.LabelKey(g.Labels) {
+							continue
+						}
+						gk := rt.GroupKey(ls)
+						var last, next time.Time
+						var lastG, nextG string
+						for _, f := range tr.Flushes {
+							if f.GroupKey != gk {
+								continue
+							}
+							if !f.At.After(tau) && f.At.After(last) {
+								last, lastG = f.At, f.Group
+							}
+							if f.At.After(tau) && (next.IsZero() || f.At.Before(next)) {
+								next, nextG = f.At, f.Group
+							}
+						}
+						// the marker belongs to one incarnation of the group: judge only when the flushes before and after
+						// the request are by the same aggregation group object
+						if last.IsZero() || next.IsZero() || lastG != nextG || len(cfg.Match(ls)) > 1 {
+							continue
+						}
+						var wantMute, wantActive []string
+						for _, n := range rt.Mute {
+							if cfg.intervalContains(n, last) {
+								wantMute = append(wantMute, n)
+							}
+						}
+						activeOK := len(rt.Active) == 0
+						for _, n := range rt.Active {
+							if cfg.intervalContains(n, last) {
+								activeOK = true
+							}
+						}
+						if !activeOK {
+							wantActive = append([]string(nil), rt.Active...)
+						}
+						got := append([]string(nil), g.Alerts[0].MutedBy...)
+						sort.Strings(got)
+						sort.Strings(wantMute)
+						sort.Strings(wantActive)
+						union := append(append([]string(nil), wantMute...), wantActive...)
+						sort.Strings(union)
+						ok := false
+						for _, w := range [][]string{wantMute, wantActive, union} {
+							if fmt.Sprint(w) == fmt.Sprint(got) && (len(w) > 0) == (len(wantMute)+len(wantActive) > 0) {
+								ok = true
+							}
+						}
+						if len(wantMute)+len(wantActive) == 0 && len(got) == 0 {
+							ok = true
+						}
+						if !ok {
+							add(pbt.V("api-muted-by", "GET /alerts/groups at %s: group %s mutedBy %v, but at its last flush (%s) the muting intervals were %v and the unsatisfied active intervals %v", tau.Format(tf), gk, got, last.Format(tf), wantMute, wantActive))
+						}
+					}
+				}
+			}
 			if fmt.Sprint(sortedCounts(want)) != fmt.Sprint(sortedCounts(gotAPI)) {
 				add(pbt.V("api-groups", "GET /alerts/groups at %s shows %v, the partition of the firing alerts by route and group_by is %v", tau.Format(tf), sortedCounts(gotAPI), sortedCounts(want)))
 			}
